@@ -76,6 +76,9 @@ Record obj : Type := {
   o_xrefs : list nat;                   (* ORACLE: the objects _EpydocLinker.link_xref / link_to resolved the cross
                                            references of that docstring (and of its fields) to; any registered object *)
   o_sum_xrefs : list nat;               (* ORACLE: same for the summary (first paragraph) of that docstring *)
+  o_linker_page : option nat;           (* the page object the object's docstring linker HOLDS (_EpydocLinker._page_object):
+                                           recorded when the linker is created -- possibly while the source is parsed, before a
+                                           re-export moves the object -- and never updated; None = no linker yet (page_object) *)
   o_module : option nat                 (* obj.parentMod (Documentable.module); NOT updated for the members of a
                                            re-exported class, so it is an input and not derived from the parent chain *)
 }.
@@ -418,9 +421,14 @@ Definition summary_entries (tbl : table) (r : registry) : list entry :=
 Definition xrefs_of (r : registry) (i : nat) : list nat := match get r i with Some o => o_xrefs o | None => [] end.
 Definition sum_xrefs_of (r : registry) (i : nat) : list nat := match get r i with Some o => o_sum_xrefs o | None => [] end.
 Definition docsource_of (r : registry) (i : nat) : option nat := match get r i with Some o => o_docsource o | None => None end.
+Definition linker_page_of (r : registry) (s : nat) : option nat :=
+  match get r s with
+  | Some o => match o_linker_page o with Some q => Some q | None => page_obj r s end
+  | None => None
+  end.
 Definition doc_ctx (r : registry) (pg : text) (i : nat) : text :=
   match docsource_of r i with
-  | Some s => match page_obj r s with Some q => url r q | None => [] end
+  | Some s => match linker_page_of r s with Some q => url r q | None => [] end
   | None => pg
   end.
 
@@ -533,6 +541,7 @@ Definition dec_obj (s : sexp) : obj :=
      o_docsource := to_option to_nat (nth_s 10 s);
      o_xrefs := map to_nat (to_list (nth_s 11 s));
      o_sum_xrefs := map to_nat (to_list (nth_s 12 s));
+     o_linker_page := to_option to_nat (nth_s 13 s);
      o_module := to_option to_nat (nth_s 9 s) |}.
 Definition dec_registry (s : sexp) : registry :=
   {| r_objs := map dec_obj (to_list (nth_s 0 s));
